@@ -45,6 +45,10 @@ Definition repr_of_sarr (a : sarr) (fill : Z) : option reprZ :=
   | _ => None
   end.
 
+(* SArr.sarr_wfb with the 0-d GCXS case of Convert.gcxs_wf0 *)
+Definition sarr_wf5 (a : sarr) : bool :=
+  match a with SGcxs g => gcxs_wf0 g | _ => sarr_wfb a end.
+
 Definition is_exc (a : sarr) : bool := match a with SExc _ => true | _ => false end.
 Definition is2d (sh : shape) : bool := match sh with [_; _] => true | _ => false end.
 
@@ -56,12 +60,12 @@ Definition fill_okb (a : sarr) (fill : Z) : bool :=
    | 3 not in canonical form *)
 Definition compare_result (m : reprZ) (o : sarr) (sh : shape) (fill : Z) (flat : list Z) : Z :=
   if negb (sarr_same_dense o sh flat && fill_okb o fill) then 2
-  else if negb (sarr_wfb o) then 3
+  else if negb (sarr_wf5 o) then 3
   else if negb (sarr_eqb (sarr_of_repr m) o) then 1 else 0.
 
 Definition spec_only (o : sarr) (sh : shape) (fill : Z) (flat : list Z) : Z :=
   if negb (sarr_same_dense o sh flat && fill_okb o fill) then 2
-  else if negb (sarr_wfb o) then 3 else 0.
+  else if negb (sarr_wf5 o) then 3 else 0.
 
 (* ------------------------------------------------------------------ conversion chains *)
 (* initial canonical COO; executed hops with a flag "through scipy.sparse" (then the hop also
@@ -158,7 +162,7 @@ Definition judge_make (c : mk_case) : Z :=
     let rows := row_numbers indptr in
     let coords := map (fun rc => if axis =? 0 then [fst rc; snd rc] else [snd rc; fst rc]) (combine rows indices) in
     let flat := spec_flat sh (combine coords data) 0 in
-    if gcxs_wfb g then
+    if gcxs_wf0 g then
       (* canonical input: the result is the canonical form in the requested format *)
       judge_model_vs (convert Z Z.eqb Z.add f (RGcxs g)) (hop_okb sh f) o sh 0 flat
     else
